@@ -19,6 +19,7 @@ from .. import adjoint, cover, registry, util
 from . import c04
 
 SHARDS = {'quick': 4, 'thorough': 16}
+THOROUGH_ROUNDS = 4
 
 EXEMPT = ('Resampling', 'RayTransform', 'LinDeform')   # documented approximate adjoints
 
